@@ -6,6 +6,9 @@
 // same line and compares limb-for-limb, (3) evaluates the PROPERTY on the real code's result against
 // an independent math/big reference (ref.go): value mod p of field results, the secp256k1 group law
 // for point results, observed as normalised big-endian bytes / Infinity flags.
+// The case kinds decompress / parsepub / xonly (DecompressPoint, ParsePubkey 02/03, ParseXOnlyPubkey) are
+// the byte-level twins / callers of XY.SetXO: the model side is the oracle's `setxo` on the limbs SetB32
+// produces, the property side is the math/big lift (refLift).
 package main
 
 import (
@@ -304,6 +307,8 @@ func runCase(line, origin string) {
 		return v
 	}
 	pan := ""
+	ask := line                      // the oracle request (differs from the case line for the twins of setxo)
+	var mapModel func(string) string // renders the oracle's reply in the form of impl
 	switch op {
 	case "norm":
 		a := fe1(1)
@@ -680,6 +685,7 @@ func runCase(line, origin string) {
 		bp, on2 := b.ref()
 		if on1 && on2 && a.inContract() && b.inContract() {
 			r.Hit("add3/" + relClass(ap, bp))
+			hitNoncanon(op, ap, bp, map[string]fe{"u1": rawU(a.x, b.z), "s1": rawS(a.y, b.z), "u2": rawU(b.x, a.z), "s2": rawS(b.y, a.z)})
 			prop = func() bool { return checkPoint(op, res, refAdd(ap, bp), c) }
 		}
 	case "addxy":
@@ -702,6 +708,7 @@ func runCase(line, origin string) {
 		bp, on2 := b.ref()
 		if on1 && on2 && a.inContract() && b.inContract() {
 			r.Hit("addxy/" + relClass(ap, bp))
+			hitNoncanon(op, ap, bp, map[string]fe{"u2": rawU(b.x, a.z), "s2": rawS(b.y, a.z)})
 			prop = func() bool { return checkPoint(op, res, refAdd(ap, bp), c) }
 		}
 	case "setxo":
@@ -720,6 +727,9 @@ func runCase(line, origin string) {
 					return true // no point with this x: nothing is promised (C03 covers the callers)
 				}
 				r.Hit("setxo/point")
+				if noncanon(rawLiftSqrt(x)) {
+					r.Hit("setxo:noncanon-sqrt")
+				}
 				got, _ := res.ref()
 				if res.inf || !got.eq(want) || res.y.mag() != 0 {
 					propFail("group-setxo", fmt.Sprintf("%s: lifted point %s, definition gives %s", line, got, want), c)
@@ -727,6 +737,110 @@ func runCase(line, origin string) {
 				}
 				return true
 			}
+		}
+	case "decompress": // DecompressPoint (ec.go), the byte-level twin of SetXO; model: setxo on the limbs SetB32 produces
+		xb, err := hex.DecodeString(t[1])
+		if err != nil || len(xb) != 32 || (t[2] != "0" && t[2] != "1") {
+			bad()
+		}
+		odd := t[2] == "1"
+		xv := new(big.Int).SetBytes(xb)
+		yb := make([]byte, 32)
+		pan = guard(func() { secp.DecompressPoint(xb, odd, yb) })
+		impl = vlib.Hex(yb)
+		ask = fmt.Sprintf("setxo %s %s", feOfBig(xv), b01(odd))
+		mapModel = func(m string) string {
+			mp, ok := parseXY(strings.Fields(m))
+			if !ok || mp.y.mag() != 0 {
+				return "unexpected:" + m
+			}
+			return vlib.Hex(b32(mp.y.val()))
+		}
+		prop = func() bool {
+			want, ok := refLift(xv, odd)
+			if !ok {
+				r.Hit("decompress/no-point")
+				return true // no point with this x (or x ≥ p): nothing is promised
+			}
+			r.Hit("decompress/point")
+			if noncanon(rawLiftSqrt(feOfBig(xv))) {
+				r.Hit("decompress:noncanon-sqrt")
+			}
+			if hex.EncodeToString(yb) != hex.EncodeToString(b32(want.y)) {
+				propFail("group-decompress", fmt.Sprintf("%s: DecompressPoint gives y=%x, the root of x³+7 with the requested parity is %x", line, yb, want.y), c)
+				return false
+			}
+			return true
+		}
+	case "parsepub", "xonly": // XY.ParsePubkey (02/03 keys) / XY.ParseXOnlyPubkey: the callers of SetXO
+		pub, err := hex.DecodeString(t[1])
+		if err != nil || (op == "parsepub" && (len(pub) != 33 || (pub[0] != 2 && pub[0] != 3))) || (op == "xonly" && len(pub) != 32) {
+			bad()
+		}
+		odd := op == "parsepub" && pub[0] == 3
+		xb := pub[len(pub)-32:]
+		xv := new(big.Int).SetBytes(xb)
+		var key secp.XY
+		var okp bool
+		pan = guard(func() {
+			if op == "parsepub" {
+				okp = key.ParsePubkey(pub)
+			} else {
+				okp = key.ParseXOnlyPubkey(pub)
+			}
+		})
+		res := xyOf(&key)
+		impl = "0"
+		if okp {
+			impl = "1 " + res.String()
+		}
+		ask = fmt.Sprintf("setxo %s %s", feOfBig(xv), b01(odd))
+		mapModel = func(m string) string {
+			mp, ok := parseXY(strings.Fields(m))
+			if !ok {
+				return "unexpected:" + m
+			}
+			mpt, on := mp.ref()
+			if xv.Cmp(refP) >= 0 || mp.inf || !on || mpt.inf {
+				return "0"
+			}
+			return "1 " + mp.String()
+		}
+		prop = func() bool {
+			want, ok := refLift(xv, odd)
+			if ok != okp {
+				propFail("group-"+op+"-accept", fmt.Sprintf("%s: returns %v, but \"x < p and x³+7 is a square\" is %v", line, okp, ok), c)
+				return false
+			}
+			if !ok {
+				r.Hit(op + "/no-point")
+				return true
+			}
+			r.Hit(op + "/point")
+			if noncanon(rawLiftSqrt(feOfBig(xv))) {
+				r.Hit(op + ":noncanon-sqrt")
+			}
+			got, _ := res.ref()
+			if res.inf || !got.eq(want) || res.y.mag() != 0 || res.y.val().Cmp(refP) >= 0 {
+				propFail("group-"+op, fmt.Sprintf("%s: parsed point %s, definition gives %s", line, got, want), c)
+				return false
+			}
+			// observable: serialising the parsed key gives the input back
+			k2 := res.goXY()
+			out33 := make([]byte, 33)
+			if pan := guard(func() { k2.GetPublicKey(out33) }); pan != "" {
+				propFail("group-observe-panic:"+op, fmt.Sprintf("%s: GetPublicKey panics: %s", line, pan), c)
+				return false
+			}
+			wantPre := byte(2)
+			if odd {
+				wantPre = 3
+			}
+			if out33[0] != wantPre || hex.EncodeToString(out33[1:]) != hex.EncodeToString(xb) {
+				propFail("group-observe:"+op, fmt.Sprintf("%s: GetPublicKey of the parsed key gives %x", line, out33), c)
+				return false
+			}
+			return true
 		}
 	case "isvalid":
 		a, ok := parseXY(t[1:])
@@ -918,7 +1032,10 @@ func runCase(line, origin string) {
 		bad()
 	}
 	c.Impl = impl
-	model := o.MustAsk(line)
+	model := o.MustAsk(ask)
+	if mapModel != nil {
+		model = mapModel(model)
+	}
 	c.Model = model
 	if pan != "" {
 		propFail("panic:"+op, fmt.Sprintf("%s: the real code panics: %s", line, pan), c)
@@ -939,6 +1056,69 @@ func runCase(line, origin string) {
 		return
 	}
 	r.TieOK()
+}
+
+// ---------------------------------------------------------------- raw (un-normalised) intermediates
+//
+// Field.Mul / Field.Sqr return magnitude-1 limbs that are not necessarily canonical: for about 1 in
+// 2^17 operands the top limb comes out ≥ 2^48 (the limbs stand for v+p). Code that compares
+// (Equals) or reads the parity (IsOdd) of such a value without Normalize is wrong only there. The
+// functions below recompute, with the SAME statements as the code, the intermediates of AddXY / Add /
+// SetXO so that the generators can search for such operands and the histogram shows they were run.
+
+func noncanon(a fe) bool {
+	f := a.field()
+	f.Normalize()
+	return limbsOf(&f) != a
+}
+
+// rawU: z.Sqr(&zz); w.Mul(&u,&zz) — u1/u2 of XYZ.Add, u2 of XYZ.AddXY
+func rawU(w, z fe) fe {
+	wf, zf := w.field(), z.field()
+	var zz, u secp.Field
+	zf.Sqr(&zz)
+	wf.Mul(&u, &zz)
+	return limbsOf(&u)
+}
+
+// rawS: z.Sqr(&zz); w.Mul(&s,&zz); s.Mul(&s,&z) — s1/s2 of XYZ.Add, s2 of XYZ.AddXY
+func rawS(w, z fe) fe {
+	wf, zf := w.field(), z.field()
+	var zz, s secp.Field
+	zf.Sqr(&zz)
+	wf.Mul(&s, &zz)
+	s.Mul(&s, &zf)
+	return limbsOf(&s)
+}
+
+// rawLiftSqrt: the value XY.SetXO / DecompressPoint hand to IsOdd before any Normalize
+func rawLiftSqrt(x fe) fe {
+	X := x.field()
+	var c, x2, x3, y secp.Field
+	X.Sqr(&x2)
+	X.Mul(&x3, &x2)
+	c.SetInt(7)
+	c.SetAdd(&x3)
+	c.Sqrt(&y)
+	return limbsOf(&y)
+}
+
+func hitNoncanon(op string, ap, bp pt, vals map[string]fe) {
+	if ap.inf || bp.inf {
+		return
+	}
+	rel := "gen"
+	switch relClass(ap, bp) {
+	case "P+P":
+		rel = "dbl"
+	case "P+(-P)":
+		rel = "neg"
+	}
+	for _, k := range []string{"u1", "u2", "s1", "s2"} {
+		if v, ok := vals[k]; ok && noncanon(v) {
+			r.Hit(fmt.Sprintf("%s:%s-noncanon-%s", op, rel, k))
+		}
+	}
 }
 
 // sameReply: limb-for-limb, except that the coordinates of an infinite result are unspecified
@@ -1057,6 +1237,6 @@ func main() {
 		"the 10x26 field (field_10x26.go, 32-bit platforms) is not compiled here and is out of scope",
 		"Go's math/bits.Mul64/Add64 and uint64 wrap-around are rendered by the translator as the Nat expressions listed in go/cmd/gen_c08/xlate.go",
 	}
-	r.Finish("every case is one oracle request line: field ops on (a) named edge limb vectors 0,1,p-1,p,p+1,2p-1,2p,2^256-1, all-ones and per-magnitude maxima, (b) per-limb edge/random mixes within magnitude m (1..32), (c) raw 64-bit limbs (translator validation beyond the contract), (d) chains of add/negate/mul_int/normalize/mul/sqr fed with their own outputs up to the magnitude limits; group ops on curve points with random Z and denormalised limbs in the relations inf+inf, inf+P, P+inf, P+P, P+(-P), P+Q; scalars 0,1,n-1,n,n+1,2^128 boundaries, lambda-split rounding edges, runs of ones, 2^256-1, random; every entry of pre_g/pre_g_128/prec/fin. distinct = distinct request lines; a case counts as non-trivial when it reaches the real code",
+	r.Finish("every case is one oracle request line: field ops on (a) named edge limb vectors 0,1,p-1,p,p+1,2p-1,2p,2^256-1, all-ones and per-magnitude maxima, (b) per-limb edge/random mixes within magnitude m (1..32), (c) raw 64-bit limbs (translator validation beyond the contract), (d) chains of add/negate/mul_int/normalize/mul/sqr fed with their own outputs up to the magnitude limits; group ops on curve points with random Z and denormalised limbs in the relations inf+inf, inf+P, P+inf, P+P, P+(-P), P+Q; scalars 0,1,n-1,n,n+1,2^128 boundaries, lambda-split rounding edges, runs of ones, 2^256-1, random; every entry of pre_g/pre_g_128/prec/fin; (e) directed (directed.go): operands found at run time by a search with the real Field code for which a raw Mul/Sqr output that the group code compares or takes the parity of is NOT canonical (top limb ≥ 2^48) — u1/u2/s1/s2 of XYZ.Add and XYZ.AddXY in the relations P+P and P+(-P) (also through ECmult 1·A+k·G and BaseMultiplyAdd(k·G,k)), the Sqrt output of XY.SetXO and its callers/twin DecompressPoint, ParsePubkey(02/03), ParseXOnlyPubkey — plus fixed witnesses of each; histogram kinds `addxy:dbl-noncanon-s2`, `setxo:noncanon-sqrt`, … count them. distinct = distinct request lines; a case counts as non-trivial when it reaches the real code",
 		"translator validation: generated Lean defs vs the Go functions limb-for-limb on every field case; property: value/magnitude/observable (Normalize+GetB32) of the real code's result against math/big mod p, group results against an independent affine group law, table entries against recomputed multiples of G; hand group model vs Go limb-for-limb on finite results")
 }
